@@ -44,15 +44,18 @@ fn only_gap(t: &str, c: usize, e: &str) -> bool {
 }
 
 /// Is there a decomposition of `t` as body_0 gap_1 body_1 ... body_k tail?
-/// `allow_hyphen`: a body may be its slice plus one inserted '-'.
-pub fn decomposes(t: &str, bodies: &[&str], e: &str, allow_hyphen: bool) -> bool {
+/// `hyphen_ok`: absolute offsets at which a fragment with a non-empty
+/// penalty ends, i.e. where the splitter inserts a hyphen if the line ends
+/// there; a body may be its slice plus one inserted '-' only at such an
+/// offset.
+pub fn decomposes(t: &str, bodies: &[&str], e: &str, hyphen_ok: &HashSet<usize>) -> bool {
     // DFS with memo over (line index, cursor)
     let mut dead: HashSet<(usize, usize)> = HashSet::new();
     fn go(
         t: &str,
         bodies: &[&str],
         e: &str,
-        allow_hyphen: bool,
+        hyphen_ok: &HashSet<usize>,
         k: usize,
         c: usize,
         dead: &mut HashSet<(usize, usize)>,
@@ -71,13 +74,14 @@ pub fn decomposes(t: &str, bodies: &[&str], e: &str, allow_hyphen: bool) -> bool
         }
         let body = bodies[k];
         for s in starts {
-            if t[s..].starts_with(body) && go(t, bodies, e, allow_hyphen, k + 1, s + body.len(), dead) {
+            if t[s..].starts_with(body) && go(t, bodies, e, hyphen_ok, k + 1, s + body.len(), dead) {
                 return true;
             }
-            if allow_hyphen {
+            if !hyphen_ok.is_empty() {
                 if let Some(b2) = body.strip_suffix('-') {
                     if t[s..].starts_with(b2)
-                        && go(t, bodies, e, allow_hyphen, k + 1, s + b2.len(), dead)
+                        && hyphen_ok.contains(&(s + b2.len()))
+                        && go(t, bodies, e, hyphen_ok, k + 1, s + b2.len(), dead)
                     {
                         return true;
                     }
@@ -87,7 +91,31 @@ pub fn decomposes(t: &str, bodies: &[&str], e: &str, allow_hyphen: bool) -> bool
         dead.insert((k, c));
         false
     }
-    go(t, bodies, e, allow_hyphen, 0, 0, &mut dead)
+    go(t, bodies, e, hyphen_ok, 0, 0, &mut dead)
+}
+
+/// Offsets (in `t`) where an in-context fragment with a non-empty penalty
+/// ends. Only custom splitters produce such fragments.
+fn hyphen_offsets(t: &str, spec: &OptSpec) -> HashSet<usize> {
+    let mut out = HashSet::new();
+    if !spec.split.is_custom() {
+        return out;
+    }
+    let splitter = spec.split.splitter();
+    let e = spec.ending();
+    let mut base = 0;
+    for par in t.split(e) {
+        let mut pos = base;
+        for w in super::textlevel::fragments(par, spec, &splitter) {
+            pos += w.word.len();
+            if !w.penalty.is_empty() {
+                out.insert(pos);
+            }
+            pos += w.whitespace.len();
+        }
+        base += par.len() + e.len();
+    }
+    out
 }
 
 pub fn check(c: &Case) -> Outcome {
@@ -181,8 +209,8 @@ pub fn check(c: &Case) -> Outcome {
         }
     }
     ensure!(
-        decomposes(t, &bodies, e, custom),
-        "wrap({}, {:?}) = {}: the text is not body_0 gap body_1 ... tail with gaps made only of ASCII spaces and line endings (something was lost, duplicated, reordered or invented)",
+        decomposes(t, &bodies, e, &hyphen_offsets(t, spec)),
+        "wrap({}, {:?}) = {}: the text is not body_0 gap body_1 ... tail with gaps made only of ASCII spaces and line endings and a trailing '-' only where the splitter inserts one (something was lost, duplicated, reordered or invented)",
         show(t),
         spec,
         show_lines(&lines)
@@ -256,7 +284,7 @@ impl Property for P {
     }
     fn cases(tier: Tier) -> u64 {
         match tier {
-            Tier::Quick => 300_000,
+            Tier::Quick => 1_200_000,
             Tier::Thorough => 16_000_000,
         }
     }
@@ -274,4 +302,11 @@ impl Property for P {
             ("space_run", 0.1),
         ]
     }
+}
+
+pub fn decode(data: &[u8]) -> Case {
+    let mut r = crate::fuzzdec::Reader::new(data);
+    let mode = r.u8();
+    let spec = crate::fuzzdec::optspec(&mut r, true, true);
+    Case { text: crate::fuzzdec::text(mode, r.rest()), spec }
 }
